@@ -67,14 +67,19 @@ Definition stmt_kinds : list string :=
 
 (* ---- operators *)
 Definition op_types : list string := ["INTEGER"; "FLOAT"; "STRING"; "BOOL"; "RTIME"; "TIME"; "IP"; "BACKEND"; "ACL"; "header"].
-Definition op_forms : list string := ["lit"; "local"; "predef"; "plit"; "plocal"; "ppredef"; "ifexp"; "call"].
+Definition op_forms : list string :=
+  ["lit"; "local"; "predef"; "plit"; "plocal"; "ppredef"; "ifexp"; "call";
+   "dinit"; "dexpr"; "copy"; "compound"; "default"; "inif"].
+(* how a local variable operand got its value: declared with an initialiser (literal / another variable), assigned
+   from another variable, updated by a compound operator, never assigned, assigned inside an if block *)
+Definition prov_forms : list string := ["dinit"; "dexpr"; "copy"; "compound"; "default"; "inif"].
 Definition base_forms : list string := ["lit"; "local"; "predef"].
 Definition all_ops : list string := assign_ops ++ compare_ops.
 Definition op_rows : list (string * string) := flat_map (fun op => map (fun l => (op, l)) op_types) all_ops.
-(* position 8 * value type index + form index *)
+(* position 14 * value type index + form index *)
 Definition op_cells : list (N * string * string) :=
-  flat_map (fun ri => map (fun fi => ((8 * fst ri + fst fi)%N, snd ri, snd fi))
-                          (combine [0; 1; 2; 3; 4; 5; 6; 7] op_forms))
+  flat_map (fun ri => map (fun fi => ((14 * fst ri + fst fi)%N, snd ri, snd fi))
+                          (combine [0; 1; 2; 3; 4; 5; 6; 7; 8; 9; 10; 11; 12; 13] op_forms))
            (combine [0; 1; 2; 3; 4; 5; 6; 7; 8; 9] op_types).
 Definition base_form_exists (rty form : string) : bool :=
   if String.eqb form "lit" then mem_str rty ["INTEGER"; "FLOAT"; "STRING"; "BOOL"; "RTIME"; "BACKEND"; "ACL"]
@@ -88,12 +93,21 @@ Definition form_exists (rty form : string) : bool :=
   if mem_str form base_forms then base_form_exists rty form
   else if mem_str form ["plit"; "plocal"; "ppredef"] then negb (String.eqb rty "header") && base_form_exists rty (base_of_form form)
   else if String.eqb form "call" then negb (String.eqb rty "header")
+  else if String.eqb form "dinit" then base_form_exists rty "lit"
+  else if String.eqb form "compound" then mem_str rty ["INTEGER"; "FLOAT"; "RTIME"; "TIME"; "STRING"; "BOOL"]
+  else if mem_str form prov_forms then negb (String.eqb rty "header")
   else String.eqb form "ifexp".
 Definition op_cells_existing : list (N * string * string) :=
   filter (fun c => match c with (_, r, f) => form_exists r f end) op_cells.
 (* the cells whose value is written directly (literal, local variable, predefined variable) *)
 Definition op_cells_base : list (N * string * string) :=
   filter (fun c => match c with (_, _, f) => mem_str f base_forms end) op_cells_existing.
+(* provenance of the LEFT operand: rows (operator, left type, provenance) where the provenance exists for the type;
+   cells: the value written as a literal or a plain local *)
+Definition opl_rows : list (string * string * string) :=
+  flat_map (fun op => flat_map (fun l => map (fun lp => (op, l, lp)) (filter (form_exists l) prov_forms)) op_types) all_ops.
+Definition op_cells_left : list (N * string * string) :=
+  filter (fun c => match c with (_, _, f) => mem_str f ["lit"; "local"] end) op_cells_existing.
 Definition obs_op_key (r : string * string * N * N) : string * string := match r with (o, l, _, _) => (o, l) end.
 
 (* ---- known gaps: (kind, name, at, bits) *)
